@@ -328,6 +328,10 @@ func (c *vfCfg) Args() []string {
 	switch c.Provider {
 	case "oidc":
 		a = append(a, "--provider=oidc", "--oidc-issuer-url=http://"+vfIdpHost, fmt.Sprintf("--insecure-oidc-skip-nonce=%v", c.SkipNonce))
+	case "google":
+		// the Google provider (the product's default) against the FakeIdP's OAuth2 endpoints
+		a = append(a, "--provider=google", "--login-url=http://"+vfIdpHost+"/authorize", "--redeem-url=http://"+vfIdpHost+"/token",
+			"--validate-url=http://"+vfIdpHost+"/plain/validate")
 	case "keycloak-oidc":
 		a = append(a, "--provider=keycloak-oidc", "--oidc-issuer-url=http://"+vfIdpHost, fmt.Sprintf("--insecure-oidc-skip-nonce=%v", c.SkipNonce))
 	case "plain":
